@@ -369,6 +369,11 @@ func (r *Run) Finish(c Coverage) {
 	}
 	if r.ReplayPath == "" {
 		dir := filepath.Join(r.Root, "evidence")
+		if r.Repo != "/repo" {
+			// a run against a scratch worktree (self-test, seeded change) must not replace the
+			// evidence of the registered repository
+			dir = filepath.Join(r.Root, ".build", "evidence-scratch")
+		}
 		_ = os.MkdirAll(dir, 0o755)
 		blob, _ := json.MarshalIndent(ev, "", " ")
 		if err := os.WriteFile(filepath.Join(dir, r.Prop+".json"), append(blob, '\n'), 0o644); err != nil {
